@@ -168,7 +168,7 @@ def pdiff_utc(Wa, Wb):
         dim = calendar.monthrange(y2, m2)[1]
         if dd < dim - dlm:
             dd += d1 if dlm < d1 else dlm
-        elif dd == dim - dlm:
+        elif dd == dim - dlm and d1 == dlm:
             dd = 0
             mm += 1
         else:
